@@ -38,7 +38,7 @@ def plan(tier):
     return {"cases": 640, "shards": 4, "shard_budget_s": 240, "watchdog_s": 600}
 
 
-def gen_names(r, k, net=False):
+def gen_names(r, k, net=False, family=False):
     """k distinct names (exact string distinct - the DEFAULT policy demands only that) with planted collisions."""
     out = []
     seen = set()
@@ -52,6 +52,11 @@ def gen_names(r, k, net=False):
         seen.add(nm)
         out.append(nm)
         kinds.append(kind)
+    if family:
+        # a dozen or more siblings whose names all sanitise to ONE identifier: the conflict counter passes _sdn_9_
+        b = "".join(r.choice("abcXYZ") for _ in range(3))
+        for ch in r.sample("-/$ .+=!#@~%^&|:;,<>?*", r.randint(12, 16)):
+            add(b[0] + ch + b[1:], "family")
     tries = 0
     while len(out) < k and tries < 200:
         tries += 1
@@ -167,7 +172,9 @@ def run_case(ctx, i, rng):
             if leaf is None:
                 leaf = d
                 continue
-            cn, k4 = gen_names(r, r.randint(1, 4), net=True)
+            cn, k4 = gen_names(r, r.randint(1, 4), net=True, family=(i % 5 == 4 and r.random() < 0.4))
+            if "family" in k4:
+                ctx.count("scopes_with_a_dozen_colliding_names")
             kinds_all += k4
             cables = []
             for nm in cn:
@@ -179,8 +186,20 @@ def run_case(ctx, i, rng):
                     ctx.count("fenced:bus-name-starting-with-backslash")
                     w = 1
                 cables.append(d.create_cable(nm, wires=w))
+            if i % 7 == 5 and r.random() < 0.6:
+                # bus names that contain the query wildcards, one a proper prefix of the other, the longer one first
+                ch_ = r.choice("*?")
+                b_ = "wq%d" % r.randrange(100)
+                try:
+                    cables.append(d.create_cable(b_ + ch_ + "hi", wires=2))
+                    cables.append(d.create_cable(b_ + ch_, wires=2))
+                    ctx.count("bus_names_with_wildcard_characters", 2)
+                except ValueError:
+                    pass
             scopes.append(("net", cables))
-            inn, k5 = gen_names(r, r.randint(1, 4))
+            inn, k5 = gen_names(r, r.randint(1, 4), family=(i % 5 == 2 and r.random() < 0.5))
+            if "family" in k5:
+                ctx.count("scopes_with_a_dozen_colliding_names")
             kinds_all += k5
             insts = [d.create_child(nm, reference=leaf) for nm in inn]
             scopes.append(("instance", insts))
